@@ -9,7 +9,7 @@ import Driver.Util
   `pdshmodel exit model <d7><d8><d9><late>`   (four 0/1 characters: which repairs the model applies)
       xrc HEX                                    -> "<ret> <hex>"
       dsh S K FANOUT CMDTMO SCRIPT[;SCRIPT...]   -> "ret <int> exit <n>" | "noret exit 1"
-          SCRIPT = comma separated fields  c<0|1> o<hex> v<int> | w<e|s><n> | wnull  d<ms> t<0|1>
+          SCRIPT = comma separated fields  c<0|1> o<hex> v<int> | w<e|s><n> | wnull  d<ms> t<0|1> | x1 (canceled)
           (`w...` = the value of rcmd_destroy is exec_destroy of that wait status)
       xd e<n> | xd s<n> | xd null                -> "<ret>"
   `pdshmodel exit spec`
@@ -48,8 +48,13 @@ def parseScript (fx : Fixes) (cmdtmo : Int) (spec : String) : Option Script :=
         | 't' :: r => some { sc with timedOut := String.ofList r ≠ "0" && cmdtmo > 0 }
         | _ => none
 
-def parseScripts (fx : Fixes) (cmdtmo : Int) (s : String) : Option (List Script) :=
-  ((s.splitOn ";").filter (· ≠ "")).mapM (parseScript fx cmdtmo)
+/-- a target whose thread was canceled before it started (^C ^Z): field `x1`; state DSH_CANCELED, rc 0 -/
+def parseHost (fx : Fixes) (cmdtmo : Int) (spec : String) : Option Host :=
+  if (spec.splitOn ",").contains "x1" then some { state := .canceled, rc := 0 }
+  else (parseScript fx cmdtmo spec).map (hostOf fx)
+
+def parseHosts (fx : Fixes) (cmdtmo : Int) (s : String) : Option (List Host) :=
+  ((s.splitOn ";").filter (· ≠ "")).mapM (parseHost fx cmdtmo)
 
 def stepModel (fx : Fixes) (line : String) : String :=
   match Driver.words line with
@@ -58,10 +63,9 @@ def stepModel (fx : Fixes) (line : String) : String :=
     | some b => let r := extractRc fx (cstr b); s!"{r.1} {Hex.encodeChars r.2}"
     | none => "bad-op"
   | ["dsh", s, k, _fanout, tmo, scripts] =>
-    match tmo.toInt?, parseScripts fx (tmo.toInt?.getD 0) scripts with
-    | some _, some scs =>
+    match tmo.toInt?, parseHosts fx (tmo.toInt?.getD 0) scripts with
+    | some _, some hs =>
       let fl : Flags := { S := s ≠ "0", k := k ≠ "0" }
-      let hs := scs.map (hostOf fx)
       if fl.k && hs.any kFails then "noret exit 1"
       else
         let r := dshReturn fx fl hs
